@@ -164,11 +164,15 @@ def one_job(kind, pid, name, path, copy, args, results):
                 with open(mp) as f:
                     meta = json.load(f)
                 meta['detected_by'] = ('./check %s --tier %s' % (used, args.tier)) if rc == 1 else None
+                if meta.get('out_of_reach'):
+                    # documented limit: recorded as missed, does not make the tool fail
+                    res['out_of_reach'] = meta['out_of_reach']
                 meta['detection'] = {'check_exit': rc, 'signatures': sigs[:6], 'wall_s': round(wall, 1)}
                 with open(mp, 'w') as f:
                     json.dump(meta, f, indent=1)
             print('%-7s %-4s %-40s tests=%-5s rc=%d %-9s %5.1fs %s' % (
-                kind, pid, name, tests_ok, rc, 'DETECTED' if rc == 1 else ('MISSED' if rc == 0 else 'ERROR'),
+                kind, pid, name, tests_ok, rc, 'DETECTED' if rc == 1 else (
+                    ('MISSED (out of reach, see meta.json)' if res.get('out_of_reach') else 'MISSED') if rc == 0 else 'ERROR'),
                 wall, '; '.join(sigs[:3])))
             sys.stdout.flush()
 
@@ -183,7 +187,7 @@ def finish(results, args):
                    if not any(r['property'] == x['property'] and r['name'] == x['name'] for x in results)]
     with open(outp, 'w') as f:
         json.dump({'results': sorted(old + results, key=lambda r: (r['property'], r['kind'], r['name']))}, f, indent=1)
-    bad = [r for r in results if not r['detected']]
+    bad = [r for r in results if not r['detected'] and not r.get('out_of_reach')]
     return 1 if bad else 0
 
 
